@@ -189,14 +189,12 @@ pub fn run(tier: &str, seed: u64, out: &Path) -> i32 {
     {
         let clean: Vec<&Elem> = uni.iter().filter(|e| !listed.contains(&e.id)).collect();
         probes.extend(uni.iter().filter(|e| listed.contains(&e.id)).cloned());
-        if thorough {
-            chosen.extend(clean.iter().map(|e| (*e).clone()));
-        } else {
-            chosen.extend(clean.iter().filter(|e| e.base.ends_with("|base")).map(|e| (*e).clone()));
-            let rest: Vec<&&Elem> = clean.iter().filter(|e| !e.base.ends_with("|base")).collect();
-            for _ in 0..8000usize.min(rest.len()) {
-                chosen.push((**rng.pick(&rest)).clone());
-            }
+        // every base element; of the others a seeded sample (the whole universe, 570 000 elements, takes half an hour:
+        // it is measured in sweep mode, see corpus/c09_fixdiff.txt)
+        chosen.extend(clean.iter().filter(|e| e.base.ends_with("|base")).map(|e| (*e).clone()));
+        let rest: Vec<&&Elem> = clean.iter().filter(|e| !e.base.ends_with("|base")).collect();
+        for _ in 0..(if thorough { 150_000usize } else { 8000 }).min(rest.len()) {
+            chosen.push((**rng.pick(&rest)).clone());
         }
         // boundary family: the widths next to the lengths of the lines of the item's own output at max_width 200
         let mut pairs: Vec<(usize, usize)> = vec![];
@@ -407,12 +405,11 @@ pub fn run(tier: &str, seed: u64, out: &Path) -> i32 {
         }
     }
     o.count_n("cases_where_2021_and_2024_differ", nontrivial);
-    o.notes.push("fixed universe: C02's universe (fixtures x {base, 7 widths, every option single, 3 name-seeded re-layouts}) and the boundary universe (items x max_width 20..200), each element under the four released style editions; the elements on which the working tree differs from the pinned release because of the repairs made during this audit are enumerated in corpus/c09_fixdiff.txt and run as probe c09-fixdiff; thorough runs every other element of the fixture universe and every planned boundary pair, quick every base element, 8000 seeded other elements and 8000 seeded boundary pairs; plus generated import groups".into());
+    o.notes.push("fixed universe: C02's universe (fixtures x {base, 7 widths, every option single, 3 name-seeded re-layouts}) and the boundary universe (items x max_width 20..200), each element under the four released style editions; the elements on which the working tree differs from the pinned release because of the repairs made during this audit are enumerated in corpus/c09_fixdiff.txt and run as probe c09-fixdiff; quick runs every base element, 8000 seeded other elements and 8000 seeded boundary pairs; thorough every base element, 150000 seeded other elements and every planned boundary pair (about 20000); plus generated import groups".into());
     let evals = o.distribution.get("b:compared").copied().unwrap_or(0) + o.distribution.get("a:compared").copied().unwrap_or(0) + o.distribution.get("bw:compared").copied().unwrap_or(0);
     o.count_n("evaluations_direct", evals);
     o.direct_evals = evals;
     o.direct_distinct = distinct.len() as u64;
-    o.exhaustive = thorough;
     o.finish(out, jobs_n())
 }
 
